@@ -63,10 +63,12 @@ type Machine struct {
 	// ChanMap maps (proc, local channel name index) to a global channel id;
 	// nil: local index is the global id.
 	ChanMap func(proc, local int) int
+	// CountProc >= 0: Run counts only the writes of that processor towards n
+	CountProc int
 }
 
 func New(rsize int, routines []*Routine) *Machine {
-	m := &Machine{}
+	m := &Machine{CountProc: -1}
 	if rsize >= 64 {
 		m.Mask = ^uint64(0)
 	} else {
@@ -327,8 +329,21 @@ func (m *Machine) step(pi int) (bool, error) {
 // Run executes round-robin, one instruction per processor per round (the
 // result of a Kahn-style network of rendezvous channels does not depend on
 // the order), until n writes happened, nothing can move, or maxSteps.
+func (m *Machine) counted() int {
+	if m.CountProc < 0 {
+		return len(m.Writes)
+	}
+	k := 0
+	for _, w := range m.Writes {
+		if w.Proc == m.CountProc {
+			k++
+		}
+	}
+	return k
+}
+
 func (m *Machine) Run(n int, maxSteps int) error {
-	for m.Steps < maxSteps && len(m.Writes) < n {
+	for m.Steps < maxSteps && m.counted() < n {
 		moved := false
 		for pi := range m.Procs {
 			ok, err := m.step(pi)
@@ -336,7 +351,7 @@ func (m *Machine) Run(n int, maxSteps int) error {
 				return err
 			}
 			moved = moved || ok
-			if len(m.Writes) >= n {
+			if m.counted() >= n {
 				break
 			}
 		}
